@@ -298,7 +298,7 @@ fn redeclaration(ctx: &Ctx) -> (usize, usize) {
 
 pub fn run(tier: Tier) {
     let ctx = Ctx::new("C12", tier);
-    let depth = tier.pick(2, 4);
+    let depth = tier.pick(3, 4);
     let panel = authorizer_panel();
     let checked = AtomicUsize::new(0);
     let samples_out = Samples::new(6);
